@@ -1703,4 +1703,410 @@ theorem rational_neg_0p5 : rationalOfStr [45, 48, 46, 53] = .ok (-(1 : Rat) / 2)
   simp [RatLit.value, Dec.value, litNeg0p5, signNeg, Dec.fracDigits, Dec.expValue, ofDigits, pow10]
   grind
 
+/-! ## 13. base64: the decoder accepts only canonical text (besides unpadded text) -/
+
+theorem b64Char_b64Val {c x : Nat} (h : b64Val c = some x) : x < 64 ∧ b64Char x = c := by
+  unfold b64Val at h
+  unfold b64Char
+  split at h
+  · injection h with h; subst h; rename_i hc
+    refine ⟨by omega, ?_⟩
+    have : c - 65 < 26 := by omega
+    simp only [this, if_true]; omega
+  · split at h
+    · injection h with h; subst h; rename_i _ hc
+      refine ⟨by omega, ?_⟩
+      have a : ¬ (c - 97 + 26 < 26) := by omega
+      have b : c - 97 + 26 < 52 := by omega
+      simp only [a, b, if_false, if_true]; omega
+    · split at h
+      · injection h with h; subst h; rename_i _ _ hc
+        refine ⟨by omega, ?_⟩
+        have a : ¬ (c - 48 + 52 < 26) := by omega
+        have b : ¬ (c - 48 + 52 < 52) := by omega
+        have d : c - 48 + 52 < 62 := by omega
+        simp only [a, b, d, if_false, if_true]; omega
+      · split at h
+        · injection h with h; subst h; rename_i _ _ _ hc; subst hc; decide
+        · split at h
+          · injection h with h; subst h; rename_i _ _ _ _ hc; subst hc; decide
+          · cases h
+
+theorem b64Dec2_sound {a b : Nat} {bs : Bytes} (h : b64Dec2 a b = some bs) :
+    b64Encode bs = [a, b, 61, 61] ∧ ∀ x ∈ bs, x < 256 := by
+  unfold b64Dec2 at h
+  cases ha : b64Val a with
+  | none => simp [ha] at h
+  | some x =>
+    cases hb : b64Val b with
+    | none => simp [ha, hb] at h
+    | some y =>
+      simp only [ha, hb] at h
+      split at h
+      · rename_i hy
+        injection h with h; subst h
+        obtain ⟨hx, ex⟩ := b64Char_b64Val ha
+        obtain ⟨hy2, ey⟩ := b64Char_b64Val hb
+        constructor
+        · simp only [b64Encode]
+          have q1 : (x * 4 + y / 16) / 4 = x := by omega
+          have q2 : (x * 4 + y / 16) % 4 * 16 = y := by omega
+          rw [q1, q2, ex, ey]
+        · intro z hz; simp at hz; subst hz; omega
+      · cases h
+
+theorem b64Dec3_sound {a b c : Nat} {bs : Bytes} (h : b64Dec3 a b c = some bs) :
+    b64Encode bs = [a, b, c, 61] ∧ ∀ x ∈ bs, x < 256 := by
+  unfold b64Dec3 at h
+  cases ha : b64Val a with
+  | none => simp [ha] at h
+  | some x =>
+    cases hb : b64Val b with
+    | none => simp [ha, hb] at h
+    | some y =>
+      cases hc : b64Val c with
+      | none => simp [ha, hb, hc] at h
+      | some z =>
+        simp only [ha, hb, hc] at h
+        split at h
+        · rename_i hz
+          injection h with h; subst h
+          obtain ⟨hx, ex⟩ := b64Char_b64Val ha
+          obtain ⟨hy, ey⟩ := b64Char_b64Val hb
+          obtain ⟨hz2, ez⟩ := b64Char_b64Val hc
+          constructor
+          · simp only [b64Encode]
+            have q1 : (x * 4 + y / 16) / 4 = x := by omega
+            have q2 : (x * 4 + y / 16) % 4 * 16 + (y % 16 * 16 + z / 4) / 16 = y := by omega
+            have q3 : (y % 16 * 16 + z / 4) % 16 * 4 = z := by omega
+            rw [q1, q2, q3, ex, ey, ez]
+          · intro w hw; simp at hw; rcases hw with hw | hw <;> subst hw <;> omega
+        · cases h
+
+theorem b64Dec4_sound {a b c d : Nat} {bs : Bytes} (h : b64Dec4 a b c d = some bs) :
+    ∃ p q r, bs = [p, q, r] ∧ p < 256 ∧ q < 256 ∧ r < 256 ∧
+      b64Char (p / 4) = a ∧ b64Char (p % 4 * 16 + q / 16) = b ∧ b64Char (q % 16 * 4 + r / 64) = c ∧ b64Char (r % 64) = d := by
+  unfold b64Dec4 at h
+  cases ha : b64Val a with
+  | none => simp [ha] at h
+  | some x =>
+    cases hb : b64Val b with
+    | none => simp [ha, hb] at h
+    | some y =>
+      cases hc : b64Val c with
+      | none => simp [ha, hb, hc] at h
+      | some z =>
+        cases hd : b64Val d with
+        | none => simp [ha, hb, hc, hd] at h
+        | some w =>
+          simp only [ha, hb, hc, hd] at h
+          injection h with h; subst h
+          obtain ⟨hx, ex⟩ := b64Char_b64Val ha
+          obtain ⟨hy, ey⟩ := b64Char_b64Val hb
+          obtain ⟨hz, ez⟩ := b64Char_b64Val hc
+          obtain ⟨hw, ew⟩ := b64Char_b64Val hd
+          refine ⟨_, _, _, rfl, by omega, by omega, by omega, ?_, ?_, ?_, ?_⟩
+          · have : (x * 4 + y / 16) / 4 = x := by omega
+            rw [this, ex]
+          · have : (x * 4 + y / 16) % 4 * 16 + (y % 16 * 16 + z / 4) / 16 = y := by omega
+            rw [this, ey]
+          · have : (y % 16 * 16 + z / 4) % 16 * 4 + (z % 4 * 64 + w) / 64 = z := by omega
+            rw [this, ez]
+          · have : (z % 4 * 64 + w) % 64 = w := by omega
+            rw [this, ew]
+
+/-- induction four elements at a time -/
+theorem quadInduct {motive : List Nat → Prop} (h0 : motive []) (h1 : ∀ a, motive [a]) (h2 : ∀ a b, motive [a, b])
+    (h3 : ∀ a b c, motive [a, b, c])
+    (h4 : ∀ a b c d rest, motive rest → motive (a :: b :: c :: d :: rest)) : ∀ l, motive l := by
+  have : ∀ l, motive l ∧ (∀ a, motive (a :: l)) ∧ (∀ a b, motive (a :: b :: l)) ∧ ∀ a b c, motive (a :: b :: c :: l) := by
+    intro l
+    induction l with
+    | nil => exact ⟨h0, h1, h2, h3⟩
+    | cons d t ih => exact ⟨ih.2.1 d, fun a => ih.2.2.1 a d, fun a b => ih.2.2.2 a b d, fun a b c => h4 a b c d t ih.1⟩
+  exact fun l => (this l).1
+
+/-- **base64_inverse (2)**: whatever `base64_decode` accepts with a length that is a multiple of 4
+is the canonical RFC 4648 text of the bytes it returns: `base64_encode(base64_decode(s)) == s`
+(no stray bits, no alternative spellings) -/
+theorem base64_encode_decode : ∀ (s bs : Bytes), b64Quads s = some bs → s.length % 4 = 0 →
+    b64Encode bs = s ∧ ∀ x ∈ bs, x < 256 := by
+  intro s
+  induction s using quadInduct with
+  | h0 => intro bs h _; simp [b64Quads] at h; subst h; simp [b64Encode]
+  | h1 a => intro bs h _; simp [b64Quads] at h
+  | h2 a b => intro bs _ hl; simp at hl
+  | h3 a b c => intro bs _ hl; simp at hl
+  | h4 a b c d rest ih =>
+    intro bs h hl
+    simp only [b64Quads] at h
+    by_cases hr : rest = []
+    · subst hr
+      simp only [if_true] at h
+      by_cases hd : d = 61
+      · subst hd
+        simp only [if_true] at h
+        by_cases hc : c = 61
+        · subst hc; simp only [if_true] at h; exact b64Dec2_sound h
+        · simp only [hc, if_false] at h; exact b64Dec3_sound h
+      · simp only [hd, if_false] at h
+        obtain ⟨p, q, r, e, hp, hq, hr, e1, e2, e3, e4⟩ := b64Dec4_sound h
+        subst e
+        refine ⟨by simp only [b64Encode, e1, e2, e3, e4], ?_⟩
+        intro x hx; simp at hx; rcases hx with hx | hx | hx <;> subst hx <;> assumption
+    · simp only [hr, if_false] at h
+      cases h4 : b64Dec4 a b c d with
+      | none => simp [h4] at h
+      | some x =>
+        cases hq : b64Quads rest with
+        | none => simp [h4, hq] at h
+        | some r =>
+          simp only [h4, hq] at h
+          injection h with h; subst h
+          obtain ⟨p, q, r', e, hp, hq', hr', e1, e2, e3, e4⟩ := b64Dec4_sound h4
+          subst e
+          have hl' : rest.length % 4 = 0 := by simp at hl; omega
+          obtain ⟨ie, ib⟩ := ih r hq hl'
+          refine ⟨by simp only [List.cons_append, List.nil_append, b64Encode, e1, e2, e3, e4, ie], ?_⟩
+          intro x hx
+          simp only [List.cons_append, List.nil_append, List.mem_cons] at hx
+          rcases hx with hx | hx | hx | hx
+          · subst hx; assumption
+          · subst hx; assumption
+          · subst hx; assumption
+          · exact ib x hx
+
+/-! ## 14. statements that are NOT proved here (kept at full strength; see `unproved` in the
+evidence).  They are checked by correspondence only. -/
+
+/-- gzip is an inverse pair: no Lean model of DEFLATE -/
+def gzip_inverse_statement (g : Gzip) : Prop := ∀ b : Bytes, decompressB g (g.compress b) = .ok b
+
+/-- serde_json reads back what it writes, for everything `json_encode` can produce -/
+def json_text_roundtrip_statement (print : JV → Str) (parse : Str → Option JV) : Prop :=
+  ∀ (v : Val) (j : JV), encodeV v = .ok j → parse (print j) = some j
+
+/-- JSON-shaped data written as a Noulith literal (or by `repr`) evaluates to what `json_decode`
+gives for the same text; `evalLiteral` is the interpreter's literal evaluation (C15's subject) -/
+def literal_repr_json_agreement_statement (text : Val → Str) (evalLiteral : Str → Option Val)
+    (jsonDecodeText : Str → Option Val) : Prop :=
+  ∀ v : Val, JsonShaped v → evalLiteral (text v) = some v ∧ jsonDecodeText (text v) = some v
+
+/-! ## 15. whitespace around numbers and around the `/` is ignored (`trim`) -/
+
+theorem trimStart_append_white (w s : Str) (hw : ∀ c ∈ w, isWhite c = true) : trimStart (w ++ s) = trimStart s := by
+  induction w with
+  | nil => rfl
+  | cons c t ih =>
+    simp only [List.cons_append, trimStart, hw c (by simp), if_true]
+    exact ih (fun x hx => hw x (by simp [hx]))
+
+/-- `trim` removes white space at both ends of a text whose own first and last characters are not white -/
+theorem trim_decorated (w1 s w2 : Str) (hw1 : ∀ c ∈ w1, isWhite c = true) (hw2 : ∀ c ∈ w2, isWhite c = true)
+    (hs : ∀ c ∈ s, isWhite c = false) : trim (w1 ++ s ++ w2) = s := by
+  unfold trim
+  rw [List.append_assoc, trimStart_append_white w1 _ hw1]
+  cases s with
+  | nil =>
+    simp only [List.nil_append]
+    have h1 : trimStart w2 = [] := by
+      have := trimStart_append_white w2 [] hw2
+      simpa [trimStart] using this
+    rw [h1]; rfl
+  | cons c t =>
+    have hc : isWhite c = false := hs c (by simp)
+    have e1 : trimStart (c :: t ++ w2) = c :: t ++ w2 := by simp [trimStart, hc]
+    rw [e1, List.reverse_append, trimStart_append_white w2.reverse _ (fun x hx => hw2 x (by simpa using hx)),
+      trimStart_id _ (fun x hx => hs x (by rw [List.mem_reverse] at hx; exact hx)), List.reverse_reverse]
+
+/-- **rational_parse_exact, decorated**: the same exact value when the text is surrounded by white
+space and when white space surrounds the `/` (`" -1.5 "`, `"1 / 2"`, tabs, U+00A0, U+3000, …) -/
+theorem rational_parse_exact_ws (l : RatLit) (hwf : l.WF) (hr : l.InRange) (w1 w2 w3 w4 : Str)
+    (h1 : ∀ c ∈ w1, isWhite c = true) (h2 : ∀ c ∈ w2, isWhite c = true)
+    (h3 : ∀ c ∈ w3, isWhite c = true) (h4 : ∀ c ∈ w4, isWhite c = true) :
+    rationalOfStr (w1 ++ (match l with
+      | .dec d => d.render
+      | .frac p q => p.render ++ w2 ++ 47 :: (w3 ++ q.render)) ++ w4) = .ok l.value := by
+  unfold rationalOfStr
+  suffices h : parseRationalExactly (w1 ++ (match l with
+      | .dec d => d.render
+      | .frac p q => p.render ++ w2 ++ 47 :: (w3 ++ q.render)) ++ w4) = some l.value by rw [h]
+  unfold parseRationalExactly
+  cases l with
+  | dec d =>
+    have hch := render_chars d hwf
+    simp only [RatLit.value]
+    rw [trim_decorated w1 _ w4 h1 h4 (fun c hc => numChar_not_white (hch c hc)),
+      splitAtFirst_none _ _ (fun c hc => numChar_not_slash (hch c hc))]
+    exact parseDecimalExactly_lit d hwf hr.1 hr.2
+  | frac p q =>
+    obtain ⟨wp, wq, hq0⟩ := hwf
+    obtain ⟨rp, rq⟩ := hr
+    have hp := render_chars p wp
+    have hq := render_chars q wq
+    have hpne : p.render ≠ [] := by
+      obtain ⟨c, rest, e, _, _⟩ := mantissaText_head p wp
+      rw [render_eq, e]; cases p.sign <;> simp [signText]
+    have hqne : q.render ≠ [] := by
+      obtain ⟨c, rest, e, _, _⟩ := mantissaText_head q wq
+      rw [render_eq, e]; cases q.sign <;> simp [signText]
+    simp only [RatLit.value]
+    -- the whole text: white ++ (core) ++ white, where core starts with p's first and ends with q's last character
+    obtain ⟨pc, pt, hpc⟩ := List.exists_cons_of_ne_nil hpne
+    obtain ⟨qi, ql, hql⟩ : ∃ qi ql, q.render = qi ++ [ql] := by
+      rcases List.eq_nil_or_concat q.render with h | ⟨qi, ql, h⟩
+      · exact absurd h hqne
+      · exact ⟨qi, ql, by rw [h, List.concat_eq_append]⟩
+    have hpcw : isWhite pc = false := numChar_not_white (hp pc (by rw [hpc]; simp))
+    have hqlw : isWhite ql = false := numChar_not_white (hq ql (by rw [hql]; simp))
+    -- trim of the whole
+    have htrim : trim (w1 ++ (p.render ++ w2 ++ 47 :: (w3 ++ q.render)) ++ w4)
+        = p.render ++ w2 ++ 47 :: (w3 ++ q.render) := by
+      unfold trim
+      rw [List.append_assoc, trimStart_append_white w1 _ h1, hpc]
+      have e1 : trimStart ((pc :: pt ++ w2 ++ 47 :: (w3 ++ q.render)) ++ w4)
+          = (pc :: pt ++ w2 ++ 47 :: (w3 ++ q.render)) ++ w4 := by
+        simp [trimStart, hpcw]
+      rw [e1, List.reverse_append,
+        trimStart_append_white w4.reverse _ (fun x hx => h4 x (by simpa using hx)), hql]
+      have e2 : (pc :: pt ++ w2 ++ 47 :: (w3 ++ (qi ++ [ql]))).reverse
+          = ql :: (pc :: pt ++ w2 ++ 47 :: (w3 ++ qi)).reverse := by
+        simp [List.reverse_append]
+      rw [e2]
+      simp only [trimStart, hqlw, Bool.false_eq_true, if_false]
+      rw [← e2, List.reverse_reverse]
+    rw [htrim]
+    have hnoslash : ∀ c ∈ p.render ++ w2, (decide (c = 47)) = false := by
+      intro c hc
+      rw [List.mem_append] at hc
+      rcases hc with hc | hc
+      · exact numChar_not_slash (hp c hc)
+      · have := h2 c hc
+        simp only [decide_eq_false_iff_not]
+        intro h47; subst h47; simp [isWhite] at this
+    rw [splitAtFirst_append _ _ 47 _ hnoslash (by decide)]
+    have t1 : trim (p.render ++ w2) = p.render := by
+      have := trim_decorated [] p.render w2 (by simp) h2 (fun c hc => numChar_not_white (hp c hc))
+      simpa using this
+    have t2 : trim (w3 ++ q.render) = q.render := by
+      have := trim_decorated w3 q.render [] h3 (by simp) (fun c hc => numChar_not_white (hq c hc))
+      simpa using this
+    simp only [t1, t2, parseDecimalExactly_lit p wp rp.1 rp.2, parseDecimalExactly_lit q wq rq.1 rq.2, hq0, if_false]
+
+/-! ## 16. `int_radix` on arbitrary text -/
+
+/-- Spec of `int_radix`: every character must be a digit below the base (either case); the result is
+the positional value -/
+def specIntRadix (s : Str) (b : Int) : Out Int :=
+  if 2 ≤ b ∧ b ≤ 36 then
+    match s.mapM fun c => toDigit c b.toNat with
+    | some ds => .ok (ofDigits b.toNat ds)
+    | none => .throw
+  else .throw
+
+theorem radixLoop_eq (base : Nat) : ∀ (s : Str) (x : Nat),
+    radixLoop base x s = (s.mapM fun c => toDigit c base).map fun ds => ds.foldl (fun acc d => base * acc + d) x := by
+  intro s
+  induction s with
+  | nil => intro x; simp [radixLoop]
+  | cons c t ih =>
+    intro x
+    simp only [radixLoop, List.mapM_cons]
+    cases hd : toDigit c base with
+    | none => simp
+    | some d =>
+      simp only [ih, Option.pure_def, Option.bind_eq_bind, Option.bind_some]
+      cases (t.mapM fun c => toDigit c base) <;> simp
+
+/-- `int_radix(s, b)` on EVERY string: the positional value when all characters are digits of the
+base (upper or lower case, leading zeros, the empty string is 0), a Noulith error otherwise -/
+theorem intRadix_eq_spec (s : Str) (r : Int) : intRadix s r = specIntRadix s r := by
+  unfold intRadix specIntRadix
+  by_cases h : 2 ≤ r ∧ r ≤ 36
+  · have hu : inU32 r := by unfold inU32; omega
+    simp only [hu, h, and_self, if_true, radixLoop_eq]
+    cases (s.mapM fun c => toDigit c r.toNat) <;> simp [ofDigits]
+  · simp only [h, if_false]
+    split <;> rfl
+
+/-! ## 17. corollaries: no codec loses information -/
+
+/-- different integers have different decimal texts (in whatever representation they are held) -/
+theorem showNInt_injective (a b : NInt) (h : showNInt a = showNInt b) : a.val = b.val := by
+  have ha := int_str_roundtrip a
+  have hb := int_str_roundtrip b
+  rw [h, hb] at ha
+  injection ha with ha; exact ha.symm
+
+theorem strRadix_injective (a b r : Int) (ha : 0 ≤ a) (hb : 0 ≤ b) (hr : 2 ≤ r ∧ r ≤ 36)
+    (h : strRadix a r = strRadix b r) : a = b := by
+  have h1 := radix_roundtrip a r ha hr
+  have h2 := radix_roundtrip b r hb hr
+  rw [h, h2] at h1
+  injection h1 with h1; exact h1.symm
+
+theorem utf8Encode_injective (s t : Str) (hs : ∀ c ∈ s, IsScalar c) (ht : ∀ c ∈ t, IsScalar c)
+    (h : utf8Encode s = utf8Encode t) : s = t := by
+  have h1 := utf8_decode_encode s hs
+  have h2 := utf8_decode_encode t ht
+  rw [h, h2] at h1
+  injection h1 with h1; exact h1.symm
+
+theorem hexEncode_injective (a b : Bytes) (ha : ∀ x ∈ a, x < 256) (hb : ∀ x ∈ b, x < 256)
+    (h : hexEncode a = hexEncode b) : a = b := by
+  have h1 := hex_decode_encode a ha
+  have h2 := hex_decode_encode b hb
+  rw [h, h2] at h1
+  injection h1 with h1; exact h1.symm
+
+theorem b64Encode_injective (a b : Bytes) (ha : ∀ x ∈ a, x < 256) (hb : ∀ x ∈ b, x < 256)
+    (h : b64Encode a = b64Encode b) : a = b := by
+  have h1 := base64_decode_encode a ha
+  have h2 := base64_decode_encode b hb
+  rw [h, h2] at h1
+  injection h1 with h1; exact h1.symm
+
+/-- the sign of a literal negates its value: "including the sign" -/
+theorem value_neg (d : Dec) :
+    Dec.value { d with sign := some true } = - Dec.value { d with sign := none } := by
+  simp only [Dec.value, signNeg, Dec.fracDigits, Dec.expValue]
+  grind
+
+theorem value_plus (d : Dec) :
+    Dec.value { d with sign := some false } = Dec.value { d with sign := none } := by
+  simp only [Dec.value, signNeg, Dec.fracDigits, Dec.expValue]
+  rfl
+
+/-! ## 18. integers inside lists -/
+
+theorem reprNInt_eq_spec (n : NInt) : reprNInt n = showInt false 10 n.val := by
+  unfold reprNInt; rw [fmtNInt_eq_spec]; rfl
+
+theorem fmtIntList_go_eq (xs : List NInt) :
+    fmtIntList.go xs = List.intercalate [44, 32] (xs.map fun x => showInt false 10 x.val) := by
+  induction xs with
+  | nil => rfl
+  | cons x t ih =>
+    cases t with
+    | nil => simp [fmtIntList.go, reprNInt_eq_spec, List.intercalate]
+    | cons y t' =>
+      rw [fmtIntList.go, ih, reprNInt_eq_spec]
+      · simp [List.intercalate]
+      · intro h; cases h
+
+/-- a list of integers prints as `[a, b, c]` with every element in decimal sign-and-magnitude
+notation, whatever the representation of each element (and whatever the base flag) -/
+theorem fmtIntList_eq_spec (xs : List NInt) :
+    fmtIntList xs = [91] ++ List.intercalate [44, 32] (xs.map fun x => showInt false 10 x.val) ++ [93] := by
+  unfold fmtIntList; rw [fmtIntList_go_eq]
+
+theorem fmtIntList_repr_independent (xs ys : List NInt) (h : xs.map NInt.val = ys.map NInt.val) :
+    fmtIntList xs = fmtIntList ys := by
+  rw [fmtIntList_eq_spec, fmtIntList_eq_spec]
+  have : (xs.map fun x => showInt false 10 x.val) = (ys.map fun x => showInt false 10 x.val) := by
+    have h1 : (xs.map fun x => showInt false 10 x.val) = (xs.map NInt.val).map (showInt false 10) := by simp
+    have h2 : (ys.map fun x => showInt false 10 x.val) = (ys.map NInt.val).map (showInt false 10) := by simp
+    rw [h1, h2, h]
+  rw [this]
+
 end Noulith.C16
